@@ -342,4 +342,6 @@ def short(scn):
         ('' if scn.get('thash', 'asc') == 'asc' else ' thash=%s' % scn['thash']) \
         + ('' if not scn.get('pre') else ' pre=%s' % (scn['pre'],)) \
         + ('' if not scn.get('late') else ' late=%s' % (scn['late'],)) \
-        + ('' if not scn.get('peek') else ' peek')
+        + ('' if not scn.get('peek') else ' peek') \
+        + ('' if not scn.get('build') else ' build=%s' % scn['build']) \
+        + ('' if not scn.get('dangle') else ' dangle=%s' % (scn['dangle'],))
